@@ -439,7 +439,7 @@ func (c *StreamCfg) mapEntry(t *rapid.T, fd protoreflect.FieldDescriptor, depth 
 
 // unknownNumber draws a field number that md does not declare.
 func unknownNumber(t *rapid.T, md protoreflect.MessageDescriptor) protowire.Number {
-	g := rapid.OneOf(rapid.IntRange(1, 64), rapid.SampledFrom([]int{15, 16, 2047, 2048, 262143, 262144, 33554431, 33554432, 536870911}), rapid.IntRange(1, 536870911))
+	g := rapid.OneOf(rapid.IntRange(1, 64), rapid.SampledFrom([]int{15, 16, 2047, 2048, 262143, 262144, 33554431, 33554432, 536870911, 18999, 19000, 19001, 19500, 19999, 20000}), rapid.IntRange(1, 536870911))
 	for i := 0; ; i++ {
 		n := protowire.Number(g.Draw(t, "unknum"))
 		if md.Fields().ByNumber(n) == nil {
